@@ -561,6 +561,10 @@ fn process_tags(
                     }
                     remain.push((idx, t.clone()));
                 }
+            } else if let Ok((_, Some(bbox))) = gen_result {
+                // output is discarded, but the extent still matters: a group template
+                // records the extent of its content, used to place its instances.
+                bbb.extend(bbox);
             }
         }
         #[cfg(feature = "verif")]
